@@ -8,6 +8,7 @@ import sys
 import time
 
 REPO = "/repo"
+VERIF = os.path.dirname(os.path.dirname(os.path.abspath(__file__)))   # a scratch copy of /verif works too
 
 
 def sh(cmd, **kw):
@@ -39,7 +40,7 @@ def main():
     try:
         for pid in props:
             t0 = time.time()
-            r = sh([os.path.join("/verif", "check"), pid, "--tier", tier], cwd="/verif")
+            r = sh([os.path.join(VERIF, "check"), pid, "--tier", tier], cwd=VERIF)
             lines = [l for l in r.stdout.split("\n") if l.startswith("VIOLATION") or l.startswith("check ") or l.startswith("KNOWN")]
             detail = [l for l in r.stdout.split("\n") if l.startswith("  ")][:6]
             results[pid] = (r.returncode, lines, detail, time.time() - t0)
@@ -49,7 +50,7 @@ def main():
     finally:
         sh(["git", "-C", REPO, "checkout", "--", "."])
         # regenerated Gen files belong to the unchanged tree again after the next check run
-        sh(["python3", "-c", "import sys; sys.path.insert(0,'/verif'); from vlib import extract\ntry:\n extract.run('restore')\nexcept Exception as e: print(e)"], cwd="/verif")
+        sh(["python3", "-c", "import sys; sys.path.insert(0,%r); from vlib import extract\ntry:\n extract.run('restore')\nexcept Exception as e: print(e)" % VERIF], cwd=VERIF)
     caught = [p for p, r in results.items() if r[0] != 0]
     print("CAUGHT BY:", caught if caught else "nothing")
     return 0
